@@ -398,16 +398,16 @@ func newProber(proto, addr string) (*prober, error) {
 		if err != nil {
 			return nil, err
 		}
-		p.x, p.close = x, x.Close
+		p.x, p.close = x, func() { mesh.Abort(x.C); x.Close() }
 	case "Http2":
-		tr := mesh.NewH2Transport()
-		p.tr, p.close = &http.Client{Transport: tr, Timeout: probeDeadline}, tr.CloseIdleConnections
+		tr, abort := mesh.NewH2TransportTracked()
+		p.tr, p.close = &http.Client{Transport: tr, Timeout: probeDeadline}, abort
 	default: // Http1 and Auto (probed with HTTP/1.1)
 		c, err := mesh.DialH1(addr)
 		if err != nil {
 			return nil, err
 		}
-		p.h1, p.close = c, c.Close
+		p.h1, p.close = c, func() { mesh.Abort(c.C) }
 	}
 	return p, nil
 }
@@ -478,24 +478,79 @@ func head(b []byte) string {
 	return string(b)
 }
 
-// echoUpstream answers every request correctly for its protocol.
-func echoUpstream(proto string) *mesh.Upstream {
+// echoServer answers every request correctly for its protocol; anomalies (what made it give up a
+// connection) are recorded so that a disturbed probe can be attributed.
+type echoServer struct {
+	Addr  string
+	close func()
+	mu    sync.Mutex
+	notes []string
+}
+
+func (e *echoServer) note(format string, a ...interface{}) {
+	e.mu.Lock()
+	if len(e.notes) < 20 {
+		e.notes = append(e.notes, fmt.Sprintf(format, a...))
+	}
+	e.mu.Unlock()
+}
+
+func (e *echoServer) Notes() string {
+	e.mu.Lock()
+	defer e.mu.Unlock()
+	return strings.Join(e.notes, "; ")
+}
+
+func (e *echoServer) Close() { e.close() }
+
+func echoUpstream(proto string) *echoServer {
 	up := proto
 	if proto == "Auto" {
 		up = "Http1"
 	}
-	return mesh.NewUpstream(up, func(r *mesh.Req) mesh.Action {
-		switch up {
-		case "Http1", "Http2":
+	e := &echoServer{}
+	switch up {
+	case "Http1", "Http2":
+		u := mesh.NewUpstream(up, func(r *mesh.Req) mesh.Action {
 			return mesh.Action{Kind: "reply", Status: 200, Header: [][2]string{{mesh.TokenHeader, r.Token}}, Body: []byte("hello " + r.Token)}
+		})
+		e.Addr, e.close = u.Addr, func() { mesh.KillAndClose(u) }
+		return e
+	}
+	srv := mesh.NewRawServer(func(id int, c net.Conn) {
+		var buf []byte
+		for {
+			frame, err := mesh.ReadFrame(up, c, &buf)
+			if err != nil {
+				if err != io.EOF && !strings.Contains(err.Error(), "closed") && !strings.Contains(err.Error(), "reset") {
+					e.note("upstream conn %d: cannot frame what the proxy forwarded: %v", id, err)
+				} else if len(buf) > 0 {
+					e.note("upstream conn %d: proxy closed the connection with %d bytes of an incomplete frame pending (%v)", id, len(buf), err)
+				}
+				return
+			}
+			rid, err := mesh.XFrameID(up, frame)
+			if err != nil {
+				e.note("upstream conn %d: forwarded frame has no parsable id: %v", id, err)
+				continue
+			}
+			if up == "bolt" {
+				if x, perr := mesh.ParseX(frame); perr == nil && (x.Response || frame[1] == 2) {
+					continue // a response / one-way frame forwarded from a garbage client: nothing to answer
+				}
+			}
+			tok := "none"
+			if toks := mesh.TokensIn(frame); len(toks) > 0 {
+				tok = toks[0]
+			}
+			// always answer: an unanswered forwarded request would keep a stream open in the proxy until its timeout
+			if _, err := c.Write(mesh.XBuildResponse(up, rid, tok, nil)); err != nil {
+				return
+			}
 		}
-		id, err := mesh.XFrameID(up, r.Frame)
-		toks := mesh.TokensIn(r.Frame)
-		if err != nil || len(toks) == 0 {
-			return mesh.Action{Kind: "drop"}
-		}
-		return mesh.Action{Kind: "reply", Frame: mesh.XBuildResponse(up, id, toks[0], nil)}
 	})
+	e.Addr, e.close = srv.Addr, srv.Close
+	return e
 }
 
 func upProto(proto string) string {
@@ -585,23 +640,37 @@ func containmentCase(rt *rapid.T, sc *scenario) {
 
 	// A: hammered listener with a correct upstream; C: second listener of another protocol
 	upA, upC := echoUpstream(sc.Proto), echoUpstream(second)
-	defer upA.Close()
-	defer upC.Close()
+	var cleanup []func() // run in order: clients, upstreams, listeners (resets, no TIME_WAIT sockets)
+	var csA, csB, csC *mesh.Case
+	var upB *mesh.RawServer
+	defer func() {
+		for _, f := range cleanup {
+			f()
+		}
+		upA.Close()
+		upC.Close()
+		if upB != nil {
+			upB.Close()
+		}
+		for _, c := range []*mesh.Case{csA, csB, csC} {
+			if c != nil {
+				c.Close()
+			}
+		}
+	}()
 	csA, err := mesh.NewCaseBound(mesh.Opts{Down: sc.Proto, Up: upProto(sc.Proto), Hosts: []string{upA.Addr}})
 	if err != nil {
 		rt.Skip("rig: " + err.Error())
 	}
-	defer csA.Close()
-	csC, err := mesh.NewCaseBound(mesh.Opts{Down: second, Up: second, Hosts: []string{upC.Addr}})
+	csC, err = mesh.NewCaseBound(mesh.Opts{Down: second, Up: second, Hosts: []string{upC.Addr}})
 	if err != nil {
 		rt.Skip("rig: " + err.Error())
 	}
-	defer csC.Close()
 
 	// B: same protocol, the upstream answers garbage
 	var badMu sync.Mutex
 	badPlan := append([]*garbage(nil), sc.Upstream...)
-	upB := mesh.NewRawServer(func(id int, c net.Conn) {
+	upB = mesh.NewRawServer(func(id int, c net.Conn) {
 		buf := make([]byte, 64*1024)
 		for {
 			_ = c.SetReadDeadline(time.Now().Add(10 * time.Second))
@@ -625,14 +694,11 @@ func containmentCase(rt *rapid.T, sc *scenario) {
 			}
 		}
 	})
-	defer upB.Close()
-	var csB *mesh.Case
 	if len(sc.Upstream) > 0 {
 		csB, err = mesh.NewCaseBound(mesh.Opts{Down: sc.Proto, Up: upProto(sc.Proto), Hosts: []string{upB.Addr}, Timeout: 300 * time.Millisecond})
 		if err != nil {
 			rt.Skip("rig: " + err.Error())
 		}
-		defer csB.Close()
 	}
 
 	if os.Getenv("VERIF_C08_DEBUG") != "" {
@@ -643,12 +709,12 @@ func containmentCase(rt *rapid.T, sc *scenario) {
 	if err != nil {
 		rt.Skip("dial: " + err.Error())
 	}
-	defer pA.close()
+	cleanup = append(cleanup, pA.close)
 	pC, err := newProber(second, csC.Addr)
 	if err != nil {
 		rt.Skip("dial: " + err.Error())
 	}
-	defer pC.close()
+	cleanup = append(cleanup, pC.close)
 	if e := pA.exchange("a"); e != "" {
 		fail("probe-fails-before-any-garbage", "baseline probe on the listener: %s", e)
 	}
@@ -712,7 +778,7 @@ func containmentCase(rt *rapid.T, sc *scenario) {
 	}
 	outcomes.Range(func(_, v interface{}) bool { ev.Class(partContain, "garbage-connection:"+v.(string)); return true })
 	if probeErr != "" {
-		fail("probe-disturbed", "probe on %s: %s", probeWhere, probeErr)
+		fail("probe-disturbed", "probe on %s: %s [upstream notes: %s | %s]", probeWhere, probeErr, upA.Notes(), upC.Notes())
 	}
 	// the listeners still accept and serve fresh connections
 	for _, x := range []struct {
@@ -740,7 +806,7 @@ func sendGarbage(addr string, g *garbage) string {
 	if err != nil {
 		return "dial-failed"
 	}
-	defer c.Close()
+	defer mesh.Abort(c) // reset: no TIME_WAIT socket per garbage connection
 	_ = c.SetWriteDeadline(time.Now().Add(5 * time.Second))
 	b := g.Bytes
 	n := g.Pieces
